@@ -1232,9 +1232,9 @@ KNOWN_FEATURES = {}
 _CONJ_SLICE_DOC = "quick: blake2(seed,index) % 8 == 0 slice of the 11520 words; thorough: all"
 
 SUBCHECKS = [
-    SubCheck("pairs_2q", None, oracle_pairs, enumerate=_pair_recipes, exhaustive_in=("quick", "thorough"), shards_quick=8, shards_thorough=8),
-    SubCheck("conj_1q", None, oracle_conj1, enumerate=_conj1_recipes, exhaustive_in=("quick", "thorough"), shards_quick=2, shards_thorough=4),
-    SubCheck("conj_2q", None, oracle_conj2, enumerate=_conj2_recipes, exhaustive_in=("thorough",), shards_quick=8, shards_thorough=16, doc=_CONJ_SLICE_DOC),
+    SubCheck("pairs_2q", None, oracle_pairs, enumerate=_pair_recipes, exhaustive_in=("quick", "thorough"), shards_quick=12, shards_thorough=12, time_quick=600.0),
+    SubCheck("conj_1q", None, oracle_conj1, enumerate=_conj1_recipes, exhaustive_in=("quick", "thorough"), shards_quick=4, shards_thorough=4, time_quick=600.0),
+    SubCheck("conj_2q", None, oracle_conj2, enumerate=_conj2_recipes, exhaustive_in=("thorough",), shards_quick=16, shards_thorough=16, time_quick=600.0, time_thorough=3000.0, doc=_CONJ_SLICE_DOC),
     SubCheck("algebra", _algebra_case(), oracle_algebra, quick=3000, thorough=80000, shards_quick=4, shards_thorough=16,
              essential={"complex_coeff": 0.2}),
     SubCheck("conj_random", _conj_case(), oracle_conj_random, quick=1500, thorough=40000, shards_quick=4, shards_thorough=16,
